@@ -921,7 +921,22 @@ var tmplNames = []string{"after", "before", "early-cancel", "checked-finished", 
 
 // ---------------------------------------------------------------- main
 
+// failure cap: a broken tree must not cost 10 s per hanging scenario for thousands of cases
+const (
+	capPerSignature = 5 // oracle failures of one signature
+	capTimeouts     = 3 // scenarios that ran into a 10 s deadline
+)
+
+var (
+	sigCount  = map[string]int{}
+	nTimeouts int
+	stopGen   bool
+)
+
 func execCase(run *kit.Run, c Case, verbose, emit bool) int {
+	if stopGen {
+		return 0
+	}
 	x := &exec{c: c}
 	x.run()
 	evs := x.sortedLog()
@@ -946,6 +961,19 @@ func execCase(run *kit.Run, c Case, verbose, emit bool) int {
 		}
 		seen[v.sig] = true
 		run.OracleFail(c.ID, v.sig, v.detail, c, evs)
+		sigCount[v.sig]++
+		if sigCount[v.sig] >= capPerSignature {
+			stopGen = true
+		}
+	}
+	if x.aborted {
+		nTimeouts++
+		if nTimeouts >= capTimeouts {
+			stopGen = true
+		}
+	}
+	if stopGen {
+		run.Extra["stopped_early"] = fmt.Sprintf("generation stopped after case %d: failure cap reached (%d timed-out scenarios, per-signature counts %v)", c.ID, nTimeouts, sigCount)
 	}
 	if emit {
 		run.Count("tmpl/" + c.Tmpl)
